@@ -320,6 +320,105 @@ def label_of(snap: dict, key: int) -> str:
 
 
 # ---------------------------------------------------------------------------------------------
+# Composite operations as sequences of model primitives
+# ---------------------------------------------------------------------------------------------
+
+STATIC_STATES = (FS.UNCONFIRMED.value, FS.MISSING.value, FS.CONFIRMED.value)
+
+
+class _Decomposer:
+    """Re-traces, on a copy of the rows, what Step.reset_for_rerun / Workflow.mark_step_pending do to the
+    tables that model/Sched.v reads, and emits the primitive sequence. A wrong re-trace cannot produce
+    a false pass: the model applies the sequence and must land exactly on the real tables."""
+
+    def __init__(self, snap: dict):
+        self.steps = {s["key"]: dict(s) for s in snap["steps"]}
+        self.files = {f["key"]: dict(f) for f in snap["files"]}
+        self.deps = [dict(d) for d in snap["deps"]]
+        self.prims: list[str] = []
+
+    # -- primitives
+    def del_dep(self, d):
+        self.prims.append(f"PDelDep (mkDep {d['src']} {d['snk']} {cbool(d['dyn'])})")
+        self.deps = [e for e in self.deps if (e["src"], e["snk"]) != (d["src"], d["snk"])]
+
+    def detach_file(self, key):
+        self.prims.append(f"PDetachFile {key}")
+        f = self.files[key]
+        if f["creator"] is not None:
+            f["creator"], f["detached"] = None, 1
+
+    def detach_step(self, key):
+        self.prims.append(f"PDetach {key}")
+        s = self.steps[key]
+        if s["creator"] is None:
+            return
+        was_attached = not s["detached"]
+        s["creator"], s["detached"] = None, 1
+        if was_attached:
+            todo, seen = [key], {key}
+            while todo:
+                k = todo.pop()
+                for coll in (self.steps, self.files):
+                    for n in coll.values():
+                        if n["creator"] == k and n["key"] not in seen:
+                            seen.add(n["key"])
+                            n["detached"] = 1
+                            todo.append(n["key"])
+
+    def set_file_state(self, key, st):
+        f = self.files[key]
+        self.prims.append(f"PSetFileState {key} {st} {cbool(f['hash'])}")
+        f["state"] = st
+
+    def set_step_state(self, key, st):
+        self.prims.append(f"PSetState {key} {st} false")
+        self.steps[key]["state"] = st
+
+    # -- composites
+    def mark_file_outdated(self, key):
+        f = self.files[key]
+        if f["state"] == FS.BUILT.value:
+            self.set_file_state(key, FS.OUTDATED.value)
+            for d in [e for e in self.deps if e["src"] == key]:
+                if d["snk"] in self.steps:
+                    self.mark_step_pending(d["snk"])
+
+    def mark_step_pending(self, key):
+        st = self.steps[key]["state"]
+        if st in (RUNNING, CHECKING):
+            return
+        self.set_step_state(key, PENDING)
+        if st in (SUCCEEDED, FAILED):
+            for d in [e for e in self.deps if e["src"] == key]:
+                if d["snk"] in self.files and self.files[d["snk"]]["state"] == FS.BUILT.value:
+                    self.mark_file_outdated(d["snk"])
+
+    def reset_for_rerun(self, k):
+        for d in [e for e in self.deps if e["snk"] == k and e["dyn"]]:
+            self.del_dep(d)
+        for d in [e for e in self.deps if e["src"] == k and e["dyn"]]:
+            self.del_dep(d)
+            if d["snk"] in self.files:
+                self.detach_file(d["snk"])
+        for key in sorted(s["key"] for s in self.steps.values() if s["creator"] == k):
+            self.detach_step(key)
+        for key in sorted(f["key"] for f in self.files.values() if f["creator"] == k and f["state"] in STATIC_STATES):
+            self.detach_file(key)
+        for key in sorted(f["key"] for f in self.files.values() if f["creator"] == k and f["state"] == FS.BUILT.value):
+            self.mark_file_outdated(key)
+
+    def term(self) -> str:
+        return "[" + "; ".join(self.prims) + "]"
+
+
+def decompose(op: str, snap: dict, key: int) -> str:
+    d = _Decomposer(snap)
+    getattr(d, op)(key)
+    return d.term()
+
+
+# ---------------------------------------------------------------------------------------------
 # Deterministic replays of the Coq witnesses on the real code
 # ---------------------------------------------------------------------------------------------
 
